@@ -18,6 +18,7 @@ from vf.checks.common import Case, call, exc_text
 from vf.checks.c07 import translate_spec
 
 ID = "C03"
+TECHNIQUE = "runtime monitoring: reference-model monitor with an exact polygon subset decision and truth-by-construction for curved pairs"
 LEVEL = "exploration"
 RULE = ("ordered pairs of shapes of all kinds incl. Empty and Whole on both sides: random placements (far / nested / crossing), "
         "pairs nested by construction (contraction about an interior point, hole-in-hole, component of a disjoint shape, a shape "
